@@ -264,9 +264,10 @@ func verifC09_FilterPolicy() {
 }
 
 // verifC09_CancelledWaiter: requests that arrive at one instant reserve permits in consecutive
-// periods; one of the waiting ones may be cancelled by its client (it is not forwarded). Whatever
-// happens to its reservation, the requests that ARE forwarded are released at most
-// limitForPeriod per period: release time = arrival + imposed wait.
+// periods and WAIT (on the engine's virtual-time timers); one of the waiting ones is cancelled
+// by its client while the others are still waiting, then one more request arrives. Whatever
+// happens to the cancelled reservation, the requests that are forwarded are released at most
+// limitForPeriod per period.
 func verifC09_CancelledWaiter() {
 	period := 10 * time.Millisecond
 	spec := &Spec{
@@ -275,33 +276,49 @@ func verifC09_CancelledWaiter() {
 		URLs:             []*URLRule{{URLRule: urlrule.URLRule{URL: urlrule.StringMatch{Prefix: "/"}}}},
 	}
 	verifAssume(spec.Validate() == nil)
-	vMono = 1000
+	vMono = 0
 	rl := &RateLimiter{spec: spec}
 	rl.Init()
-	n := 4
-	cancelled := verifChoose("cancelledRequest", n+1) // n = none
-	var released [8]int                               // releases per period (index = period number)
-	for i := 0; i < n; i++ {
-		std := &http.Request{Method: "GET", URL: &url.URL{Path: "/x"}, Header: http.Header{}}
-		if i == cancelled {
-			cctx, cancel := stdcontext.WithCancel(stdcontext.Background())
-			cancel()
-			std = std.WithContext(cctx)
-		}
-		vTimerWaits, vLastTimer = 0, 0
-		res, _ := vHandle(rl, &httpprot.Request{Request: std})
-		verifAssert(res == "", "admitted-within-the-timeout")
-		if i == cancelled && vTimerWaits > 0 {
-			verifCover("waiting-request-cancelled")
-			continue // the client is gone: not forwarded, not a release
-		}
-		wait := time.Duration(0)
-		if vTimerWaits > 0 {
-			wait = vLastTimer
-		}
-		k := int(wait / period)
-		verifAssert(wait%period == 0 && k < 8, "released-at-a-period-start")
-		released[k]++
-		verifAssert(released[k] <= 1, "at-most-limitForPeriod-releases-per-period")
+	var releasedAt [5]int64
+	var done [5]bool
+	var cancels [5]stdcontext.CancelFunc
+	start := func(i int) {
+		cctx, cancel := stdcontext.WithCancel(stdcontext.Background())
+		cancels[i] = cancel
+		std := (&http.Request{Method: "GET", URL: &url.URL{Path: "/x"}, Header: http.Header{}}).WithContext(cctx)
+		go func() {
+			res, _ := vHandle(rl, &httpprot.Request{Request: std})
+			verifAssert(res == "", "admitted-within-the-timeout")
+			releasedAt[i] = verifClock()
+			done[i] = true
+		}()
+		verifQuiesce()
 	}
+	// r0 is released at once, r1 and r2 wait for the next two periods
+	start(0)
+	start(1)
+	start(2)
+	verifAssert(done[0] && !done[1] && !done[2], "first-request-proceeds-the-others-wait")
+	victim := 1 + verifChoose("cancelledWaiter", 2)
+	cancels[victim]()
+	verifQuiesce()
+	verifAssert(done[victim], "cancelled-request-returns")
+	start(3) // one more arrival at the same instant
+	for step := 0; step < 5; step++ {
+		vMono += int64(period)
+		verifAdvance(int64(period))
+		verifQuiesce()
+	}
+	var perPeriod [8]int
+	for i := 0; i < 4; i++ {
+		verifAssert(done[i], "every-admitted-request-is-released-within-the-timeout")
+		if i == victim {
+			continue // the client is gone: not forwarded
+		}
+		k := int(releasedAt[i] / int64(period))
+		verifAssert(k < 8, "released-within-the-horizon")
+		perPeriod[k]++
+		verifAssert(perPeriod[k] <= 1, "at-most-limitForPeriod-releases-per-period")
+	}
+	verifCover("waiting-request-cancelled")
 }
